@@ -1,5 +1,6 @@
 import UtilModel.Treiber.Model
 import UtilModel.Treiber.LinFlow
+import UtilModel.Treiber.LinEmpty
 import UtilModel.Core.Monitor
 /-!
 # AtomicLIFO — the history-level monitor of C12
@@ -11,9 +12,16 @@ import UtilModel.Core.Monitor
   `v`, fewer `Pop`s have returned `v` so far than `Push(v)` have been *invoked* so far. With the
   distinct values of the harness: no value is popped twice, and none before its push was invoked.
 
+* **`Pop` returns the zero value only if the stack can be empty** (`monEmpty`, see
+  `Treiber/LinEmpty.lean`): if values whose `Push` had *returned* before the `Pop` was invoked are
+  still unaccounted for when it returns zero — not returned by any `Pop` so far, and more of them than
+  there are other `Pop`s in flight (each could have taken one) — then some value was on the stack
+  during the whole call and the history is rejected. (Switched off once a zero has been pushed.)
+
 It is sound (accepts every observable trace of the model, `Props.C12_obs_lifo`) but not the whole
-property. **Full linearizability of an implementation history — LIFO order, real-time order, "zero
-value exactly when empty", no lost element — is decided by trace inclusion in the model:**
+property. **Full linearizability of an implementation history — LIFO order, real-time order, the
+remaining cases of "zero value exactly when empty", no lost element — is decided by trace inclusion
+in the model:**
 `model.accepts` (the driver) + `Props.lincheck_sound` (= `accepts_sound` + `treiber_refines_stack`).
 The final drain of every harness scenario makes lost elements visible to that check.
 -/
@@ -28,7 +36,13 @@ def stackFlow : Flow SOp SRes where
     | .pop, .val v => if v = 0 then none else some v
     | _, _ => none
   seen := fun _ _ => none
+  emptyRes := fun op r => match op, r with
+    | .pop, .val 0 => true
+    | _, _ => false
+  mayTake := fun op => match op with
+    | .pop => true
+    | _ => false
 
-def monC12 : ObsMonitor Obs (FlowSt SOp) := (monFlow stackFlow).comap Obs.toH
+def monC12 : ObsMonitor Obs (FlowSt SOp × EmpSt SOp) := (monContainer stackFlow).comap Obs.toH
 
 end UtilModel.Treiber
